@@ -56,7 +56,8 @@ impl Fault {
             Fault::OpenErr(EMFILE) => "open:EMFILE",
             Fault::OpenErr(_) => "open:other",
             Fault::MetaErr => "meta:err",
-            Fault::MetaSize(_) => "meta:size-lie",
+            Fault::MetaSize(0..=3) => "meta:size-lie",
+            Fault::MetaSize(_) => "meta:size-lie-huge",
             Fault::ReadShort(_) => "read:short",
             Fault::ReadEintr => "read:EINTR",
             Fault::ReadEio => "read:EIO",
@@ -342,7 +343,9 @@ impl Vfs for SimFs {
             Some(Fault::MetaSize(0)) => Ok(0),
             Some(Fault::MetaSize(1)) => Ok(len / 2),
             Some(Fault::MetaSize(2)) => Ok(len + 1),
-            Some(Fault::MetaSize(_)) => Ok(len + 5000),
+            Some(Fault::MetaSize(3)) => Ok(len + 5000),
+            // an absurd size (special file systems, sparse files): must not be trusted blindly either
+            Some(Fault::MetaSize(_)) => Ok(u64::MAX),
             _ => Ok(len),
         }
     }
